@@ -64,7 +64,7 @@ JudgeBand(g, cx, nb, excl, tol) ==
   IN IF NamesUnanchored(cx, D) THEN "input-names-a-residue-without-anchor-particle"
      ELSE IF \E k \in DOMAIN nb : ra[k] = 0 \/ rb[k] = 0 THEN "pair-potential-between-types-that-are-not-site-types"
      ELSE IF \E k \in DOMAIN nb : ra[k] = rb[k] THEN "pair-potential-of-a-residue-with-itself"
-     ELSE IF \E k, l \in DOMAIN nb : k # l /\ pr[k] = pr[l] THEN "pair-potential-repeated"
+     ELSE IF Cardinality(got) # Len(nb) THEN "pair-potential-repeated"
      ELSE IF got \ B.may # {} THEN
             LET q == CHOOSE x \in got \ B.may : TRUE
             IN "pair-potential-on-contact-failing-" \o
@@ -74,7 +74,7 @@ JudgeBand(g, cx, nb, excl, tol) ==
      ELSE IF \E k \in DOMAIN nb : nb[k].s < tol \/ nb[k].s > 40000 \/ ~(Sq(nb[k].s - tol) <= BBD2(g, cx, pr[k]) /\ BBD2(g, cx, pr[k]) <= Sq(nb[k].s + tol))
           THEN "sigma-is-not-distance-over-2^(1/6)"
      ELSE IF \E k \in DOMAIN nb : nb[k].eps # g.eps THEN "depth-is-not-the-requested-one"
-     ELSE IF \E k, l \in DOMAIN excl : k # l /\ NormP(excl[k].a, excl[k].b) = NormP(excl[l].a, excl[l].b) THEN "exclusion-repeated"
+     ELSE IF Cardinality(xgot) # Len(excl) THEN "exclusion-repeated"
      ELSE IF xgot # xexp THEN "exclusions-are-not-the-backbone-pairs-of-the-contacts"
      ELSE "ok"
 
@@ -86,8 +86,9 @@ BandClasses(g, cx, tol) ==
       ball == [r \in {p[1] : p \in M} |-> GM!Ball(cx.E, r, g.sep)]
       F(p) == (IF p \in B.listed THEN {} ELSE {"sym"}) \cup (IF p[2] \in ball[p[1]] THEN {"sep"} ELSE {})
               \cup (IF BBD2(g, cx, p) > Sq(g.lo) THEN {} ELSE {"lo"}) \cup (IF BBD2(g, cx, p) < Sq(g.up) THEN {} ELSE {"up"})
-      cl == [p \in M |-> IF F(p) = {} THEN "pair" ELSE IF Cardinality(F(p)) = 1 THEN CHOOSE c \in F(p) : TRUE ELSE "multi"]
-      N(c) == Cardinality({p \in M : cl[p] = c})
+      Class(p) == LET f == F(p) IN IF f = {} THEN "pair" ELSE IF Cardinality(f) = 1 THEN CHOOSE c \in f : TRUE ELSE "multi"
+      cl == {<<p, Class(p)>> : p \in M}
+      N(c) == Cardinality({x \in cl : x[2] = c})
       Inter(S) == Cardinality({p \in S : g.atoms[p[1]].chain # g.atoms[p[2]].chain})
   IN [pair |-> N("pair"), sym |-> N("sym"), sep |-> N("sep"), lo |-> N("lo"), up |-> N("up"), multi |-> N("multi"),
       absent |-> Cardinality({k \in DOMAIN g.cmap : GM!Lookup(g, cx, g.cmap[k].ca, g.cmap[k].ra) = 0 \/ GM!Lookup(g, cx, g.cmap[k].cb, g.cmap[k].rb) = 0}),
@@ -115,7 +116,8 @@ FileG(opts, cmap, f) ==
       name |-> opts.name, bb |-> opts.bb, vs |-> opts.vs, lo |-> opts.lo, up |-> opts.up, sep |-> opts.sep, eps |-> opts.eps]
 
 JudgeTop(opts, f) ==
-  IF ~(f.has.itp /\ f.has.types /\ f.has.nb /\ f.has.top /\ f.has.pdb) THEN "an-output-file-is-missing"
+  \* go_nbparams.itp is not written when there is no pair potential to write: an absent file is a file without lines
+  IF ~(f.has.itp /\ f.has.types /\ f.has.top /\ f.has.pdb) THEN "an-output-file-is-missing"
   ELSE IF f.moltype # opts.name THEN "molecule-type-not-named-as-requested"
   ELSE IF \A k \in DOMAIN f.top.defines : f.top.defines[k] # "GO_VIRT" THEN "top-does-not-define-GO_VIRT"
   ELSE IF Cardinality({k \in DOMAIN f.top.includes : f.top.includes[k] = opts.name \o ".itp"}) # 1 THEN "top-does-not-include-the-molecule-itp-once"
@@ -193,7 +195,9 @@ JudgeRoundTrip(e) ==
      ELSE "ok"
 RoundTripFacts(e) ==
   [same_entries_back |-> GM!Range(AsCmap(e.back)) = GM!Range(e.g.cmap), same_entries_legend |-> GM!Range(CmapOf(e.legend)) = GM!Range(e.g.cmap),
-   entries |-> Len(e.g.cmap), symmetric |-> \A k \in DOMAIN e.g.cmap : \E l \in DOMAIN e.g.cmap :
+   entries |-> Len(e.g.cmap),
+   inter |-> LET b == Band(e.g, GM!Ctx(e.g), e.tol) IN Cardinality({p \in b.must : e.g.atoms[p[1]].chain # e.g.atoms[p[2]].chain}),
+   symmetric |-> \A k \in DOMAIN e.g.cmap : \E l \in DOMAIN e.g.cmap :
                                                e.g.cmap[l] = [ra |-> e.g.cmap[k].rb, ca |-> e.g.cmap[k].cb, rb |-> e.g.cmap[k].ra, cb |-> e.g.cmap[k].ca]]
 
 (* two runs that must have written the same Go model (map generated in memory / the same map read from the file) *)
